@@ -315,6 +315,12 @@ def run(rep: Report, tier: str) -> None:
 		r4.check(builtin_calls == {name}, f'cast:{name}', (EVAL, ret.lineno), f'the emulation of `{name}(...)` calls {sorted(builtin_calls)}', unparse(ret))
 	if not seen_casts:
 		r4.skip('cast:?', fc.where, 'on_func_call no longer has `return <builtin>(...)` arms under `<callee name> == \'<builtin>\'`')
+	# the content of a string literal is the text between its two quote characters: exactly one character is removed per side
+	greedy = [n for defs_ in c.methods.values() for f_ in defs_ for n in ast.walk(f_.node) if isinstance(n, ast.Call) and isinstance(n.func, ast.Attribute) and n.func.attr in ('strip', 'lstrip', 'rstrip', 'replace') and n.args and isinstance(n.args[0], ast.Constant) and isinstance(n.args[0].value, str) and set(n.args[0].value) & set('"\'')]
+	for n in greedy:
+		r4.violate(f'unquote:{unparse(n)[:40]}', (EVAL, n.lineno), f'`{unparse(n)}` removes EVERY quote character at the edges of the literal, not just the delimiters: `"\'" + "abc" + "\'"` folds to `abc` (CPython: \'abc\'), `int("\'5\'")` is accepted', unparse(n))
+	slices_ = [n for defs_ in c.methods.values() for f_ in defs_ for n in ast.walk(f_.node) if isinstance(n, ast.Subscript) and isinstance(n.slice, ast.Slice) and unparse(n.slice) == '1:-1']
+	r4.check(bool(slices_) or bool(greedy), 'unquote:delimiters-only', c.where, 'no `[1:-1]` un-quoting left in LiteralEvaluator (rule needs re-derivation)') if not slices_ and not greedy else r4.ok('unquote:delimiters-only', c.where) if not greedy else None
 	r4.check('raise Errors.OperationNotAllowed' in unparse(fc.node), 'cast:other-refused', fc.where, 'calls other than the scalar casts are no longer refused')
 	hexpat = gm.term_patterns.get('HEX_NUMBER')
 	if hexpat is not None and 'i' in getattr(hexpat, 'flags', ()):
